@@ -80,6 +80,12 @@ def check_case(ctx, case):
         if numpy.ndim(fore.event_count) != 0:
             ctx.violation("forecast_total_not_a_scalar_after_array_scaling", {"shape": list(numpy.shape(fore.event_count))})
             return
+    if case.get("other_tests_first") and n <= 3000:
+        # the same forecast and catalog objects went through the other consistency tests first (one simulation each): they read
+        # their arguments, so the number test that follows sees the catalog and the forecast as they were
+        for other in (P.magnitude_test, P.spatial_test, P.conditional_likelihood_test, Bn.binary_spatial_test):
+            call(other, fore, cat, num_simulations=1, seed=5)
+        ctx.count("number_tests_after_the_other_tests_on_the_same_objects")
     got_mu = float(fore.event_count)
     if abs(got_mu - mu) > 1e-9 * mu:
         ctx.violation("forecast_total_wrong_after_scaling", {"got": got_mu, "want": mu, "history": hist})
@@ -256,6 +262,8 @@ def cases(draw):
         c["var_factor"] = 1 + float("%.4g" % 10 ** draw(st.one_of(st.floats(-3, 4), st.floats(-6, -3))))      # down to var = mean (1 + 1e-6)
     if draw(st.integers(0, 3)) == 0:
         c["below_min"] = True
+    if draw(st.integers(0, 2)) == 0:
+        c["other_tests_first"] = True
     return c
 
 
